@@ -330,6 +330,9 @@ pub fn gen_hist(rng: &mut Rng, profile: Profile, size: Size) -> Plan {
 #[derive(Clone, Copy, Debug, PartialEq, Eq)]
 pub enum ConcProfile {
     C05,
+    /// few, very large writes (60-140 KiB) from 3-5 clients so that group commits hit their size
+    /// limits (128 KiB extra for a small leader, 1 MiB overall)
+    C05Big,
     C06,
     C09,
     C03,
@@ -344,6 +347,10 @@ fn conc_knobs(rng: &mut Rng, profile: ConcProfile) -> Knobs {
     k.max_file_size = *rng.pick(&[512u64, 1024, 4096, 16384]);
     if matches!(profile, ConcProfile::C03 | ConcProfile::C11) && rng.chance(2, 3) {
         k.table_cache_cap = 2;
+    }
+    if profile == ConcProfile::C05Big {
+        k.max_memtable_size = *rng.pick(&[65536usize, 1 << 20, 4 << 20]);
+        k.max_file_size = 1 << 20;
     }
     k
 }
@@ -377,6 +384,27 @@ pub fn gen_conc(rng: &mut Rng, profile: ConcProfile, thorough: bool) -> (Plan, s
     let mut clients: Vec<Vec<Op>> = vec![];
     let mut tail: Vec<Op> = vec![];
     match profile {
+        ConcProfile::C05Big => {
+            ops.clear();
+            let nc = prng.range(3, 5) as usize;
+            for _ in 0..nc {
+                let n = prng.range(2, 6) as usize;
+                let mut c = vec![];
+                for _ in 0..n {
+                    match prng.weighted(&[50, 10, 30, 10]) {
+                        0 => {
+                            let mut v = tags.val(&mut prng, &vp);
+                            v.len = *prng.pick(&[70_000u32, 100_000, 120_000, 135_000, 300_000]);
+                            c.push(Op::Put { k: prng.usize_below(nkeys), v });
+                        }
+                        1 => c.push(Op::Put { k: prng.usize_below(nkeys), v: tags.val(&mut prng, &vp) }),
+                        2 => c.push(Op::Get { k: prng.usize_below(nkeys) }),
+                        _ => c.push(Op::Delete { k: prng.usize_below(nkeys) }),
+                    }
+                }
+                clients.push(c);
+            }
+        }
         ConcProfile::C05 | ConcProfile::C09 => {
             for _ in 0..n_clients {
                 let n = prng.range(5, max_ops) as usize;
